@@ -2285,3 +2285,75 @@ package sod
 //@ ensures [C05 tmp.not-an-object] !uuidShaped(prefixOf(".tmp-" + baseOf(path)))
 //@ modifies nothing
 //@ allocates Elem[interface{}], Elem[string]
+
+// ---- remaining exported calls: lock discipline and error classes -----------------------------------
+
+//@ func (*Search).Operation
+//@ serves C02 C08 C09 C19
+//@ requires [wf] wfSearch(s) && s.db != nil && imp(s.err == nil, wfDB(s.db) && distinctIds(s.fields))
+//@ requires [C09 lock-free] lockFree()
+//@ let e0 error := s.err
+//@ ensures [C02 Op.error-sticks] imp(e0 != nil, result == s && s.err == e0 && ACQ_H == old(ACQ_H))
+//@ ensures [C08 at-most-one-section] (ACQ_H == old(ACQ_H) || ACQ_H == old(ACQ_H) + 1) && lockFree()
+//@ ensures [C19 Op.result] result != nil
+//@ modifies Ghost.ACQ_H, Search.err@s, iterator.i, MapDom[string,*Schema]@s.db.schemas, MapVal[string,*Schema]@s.db.schemas, MapCard[string,*Schema]@s.db.schemas, Async.routineStarted, MapDom[string,*objectMap]@s.db.cache.m, MapVal[string,*objectMap]@s.db.cache.m, MapCard[string,*objectMap]@s.db.cache.m, MapDom[string,Object], MapVal[string,Object], MapCard[string,Object]
+//@ allocates Async.Enable, Async.Threshold, Async.Timeout, Elem[*indexedField], Elem[interface{}], Elem[string], MapCard[string,*fieldIndex], MapCard[string,uint64], MapCard[uint64,*indexedField], MapCard[uint64,bool], MapCard[uint64,string], MapDom[string,*fieldIndex], MapDom[string,uint64], MapDom[uint64,*indexedField], MapDom[uint64,bool], MapDom[uint64,string], MapVal[string,*fieldIndex], MapVal[string,uint64], MapVal[uint64,*indexedField], MapVal[uint64,bool], MapVal[uint64,string], Object.content, Object.stage, Object.uuid, Schema.AsyncWrites, Schema.Cache, Schema.Compress, Schema.Extension, Schema.Fields, Schema.ObjectIndex, Schema.coherent, Schema.db, Schema.object, Schema.transformers, Search.db, Search.fields, Search.limit, Search.object, Search.reverse, fieldIndex.Cast, fieldIndex.Constraints.Index, fieldIndex.Constraints.Lower, fieldIndex.Constraints.Unique, fieldIndex.Constraints.Upper, fieldIndex.Index, fieldIndex.Name, fieldIndex.nameSplit, fieldIndex.objectIds, fieldIndex.pos, indexedField.ObjectId, indexedField.Value, iterator.db, iterator.reverse, iterator.t, iterator.tdyn, iterator.uuids, objIndex.Fields, objIndex.ObjectIds, objIndex.i, objIndex.otype, objIndex.uuids, objIndex.ver, objectMap.RWMutex, objectMap.m
+
+//@ func (*Search).AssignOne
+//@ serves C01 C08 C09 C13
+//@ requires [wf] wfSearch(s) && s.db != nil && imp(s.err == nil, wfDB(s.db))
+//@ requires [C09 lock-free] lockFree()
+//@ may_panic "target must be a *T with T implementing sod.Object (documented misuse of Assign targets)"
+//@ ensures [C08 one-section] ACQ_H == old(ACQ_H) + 1 && lockFree()
+//@ ensures [C13 AssignOne.error] imp(old(s.err) != nil, err == old(s.err))
+//@ ensures [C13 AssignOne.none] imp(old(s.err) == nil && len(s.fields) == 0, err == ErrNoObjectFound)
+//@ modifies Ghost.ACQ_H, Search.limit@s, iterator.i, iterator.reverse, MapDom[string,*Schema]@s.db.schemas, MapVal[string,*Schema]@s.db.schemas, MapCard[string,*Schema]@s.db.schemas, Async.routineStarted, MapDom[string,*objectMap], MapVal[string,*objectMap], MapCard[string,*objectMap], MapDom[string,Object], MapVal[string,Object], MapCard[string,Object]
+//@ allocates Async.Enable, Async.Threshold, Async.Timeout, Elem[*indexedField], Elem[Object], Elem[interface{}], Elem[string], MapCard[string,*fieldIndex], MapCard[string,uint64], MapCard[uint64,*indexedField], MapCard[uint64,string], MapDom[string,*fieldIndex], MapDom[string,uint64], MapDom[uint64,*indexedField], MapDom[uint64,string], MapVal[string,*fieldIndex], MapVal[string,uint64], MapVal[uint64,*indexedField], MapVal[uint64,string], Object.content, Object.stage, Object.uuid, Schema.AsyncWrites, Schema.Cache, Schema.Compress, Schema.Extension, Schema.Fields, Schema.ObjectIndex, Schema.coherent, Schema.db, Schema.object, Schema.transformers, fieldIndex.Cast, fieldIndex.Constraints.Index, fieldIndex.Constraints.Lower, fieldIndex.Constraints.Unique, fieldIndex.Constraints.Upper, fieldIndex.Index, fieldIndex.Name, fieldIndex.nameSplit, fieldIndex.objectIds, fieldIndex.pos, indexedField.ObjectId, indexedField.Value, iterator.db, iterator.t, iterator.tdyn, iterator.uuids, objIndex.Fields, objIndex.ObjectIds, objIndex.i, objIndex.otype, objIndex.uuids, objIndex.ver, objectMap.RWMutex, objectMap.m
+
+//@ func (*Search).Assign
+//@ serves C01 C08 C09 C13
+//@ requires [wf] wfSearch(s) && s.db != nil && imp(s.err == nil, wfDB(s.db))
+//@ requires [C09 lock-free] lockFree()
+//@ may_panic "target must be a *[]T with T implementing sod.Object (documented misuse of Assign targets)"
+//@ ensures [C08 one-section] ACQ_H == old(ACQ_H) + 1 && lockFree()
+//@ modifies Ghost.ACQ_H, Search.limit@s, iterator.i, iterator.reverse, MapDom[string,*Schema]@s.db.schemas, MapVal[string,*Schema]@s.db.schemas, MapCard[string,*Schema]@s.db.schemas, Async.routineStarted, MapDom[string,*objectMap], MapVal[string,*objectMap], MapCard[string,*objectMap], MapDom[string,Object], MapVal[string,Object], MapCard[string,Object]
+//@ allocates Async.Enable, Async.Threshold, Async.Timeout, Elem[*indexedField], Elem[Object], Elem[interface{}], Elem[string], MapCard[string,*fieldIndex], MapCard[string,uint64], MapCard[uint64,*indexedField], MapCard[uint64,string], MapDom[string,*fieldIndex], MapDom[string,uint64], MapDom[uint64,*indexedField], MapDom[uint64,string], MapVal[string,*fieldIndex], MapVal[string,uint64], MapVal[uint64,*indexedField], MapVal[uint64,string], Object.content, Object.stage, Object.uuid, Schema.AsyncWrites, Schema.Cache, Schema.Compress, Schema.Extension, Schema.Fields, Schema.ObjectIndex, Schema.coherent, Schema.db, Schema.object, Schema.transformers, fieldIndex.Cast, fieldIndex.Constraints.Index, fieldIndex.Constraints.Lower, fieldIndex.Constraints.Unique, fieldIndex.Constraints.Upper, fieldIndex.Index, fieldIndex.Name, fieldIndex.nameSplit, fieldIndex.objectIds, fieldIndex.pos, indexedField.ObjectId, indexedField.Value, iterator.db, iterator.t, iterator.tdyn, iterator.uuids, objIndex.Fields, objIndex.ObjectIds, objIndex.i, objIndex.otype, objIndex.uuids, objIndex.ver, objectMap.RWMutex, objectMap.m
+
+//@ func (*Search).AssignUnique
+//@ serves C01 C08 C09 C13
+//@ requires [wf] wfSearch(s) && s.db != nil && imp(s.err == nil, wfDB(s.db))
+//@ requires [C09 lock-free] lockFree()
+//@ may_panic "target must be a *T with T implementing sod.Object (documented misuse of Assign targets)"
+//@ ensures [C08 one-section] ACQ_H == old(ACQ_H) + 1 && lockFree()
+//@ ensures [C13 AssignUnique.many] imp(old(s.err) == nil && len(s.fields) > 1, errIs(err, ErrUnexpectedNumberOfResults))
+//@ modifies Ghost.ACQ_H, Search.err@s, Search.limit@s, iterator.i, iterator.reverse, MapDom[string,*Schema]@s.db.schemas, MapVal[string,*Schema]@s.db.schemas, MapCard[string,*Schema]@s.db.schemas, Async.routineStarted, MapDom[string,*objectMap], MapVal[string,*objectMap], MapCard[string,*objectMap], MapDom[string,Object], MapVal[string,Object], MapCard[string,Object]
+//@ allocates Elem[interface{}]
+//@ allocates Async.Enable, Async.Threshold, Async.Timeout, Elem[*indexedField], Elem[Object], Elem[string], MapCard[string,*fieldIndex], MapCard[string,uint64], MapCard[uint64,*indexedField], MapCard[uint64,string], MapDom[string,*fieldIndex], MapDom[string,uint64], MapDom[uint64,*indexedField], MapDom[uint64,string], MapVal[string,*fieldIndex], MapVal[string,uint64], MapVal[uint64,*indexedField], MapVal[uint64,string], Object.content, Object.stage, Object.uuid, Schema.AsyncWrites, Schema.Cache, Schema.Compress, Schema.Extension, Schema.Fields, Schema.ObjectIndex, Schema.coherent, Schema.db, Schema.object, Schema.transformers, fieldIndex.Cast, fieldIndex.Constraints.Index, fieldIndex.Constraints.Lower, fieldIndex.Constraints.Unique, fieldIndex.Constraints.Upper, fieldIndex.Index, fieldIndex.Name, fieldIndex.nameSplit, fieldIndex.objectIds, fieldIndex.pos, indexedField.ObjectId, indexedField.Value, iterator.db, iterator.t, iterator.tdyn, iterator.uuids, objIndex.Fields, objIndex.ObjectIds, objIndex.i, objIndex.otype, objIndex.uuids, objIndex.ver, objectMap.RWMutex, objectMap.m
+
+//@ func (*DB).Schema
+//@ serves C08 C09 C17
+//@ requires [wf] wfDBbase(db) && of != nil
+//@ requires [C09 lock-free] lockFree()
+//@ ensures [C08 one-section] ACQ_H == old(ACQ_H) + 1 && lockFree()
+//@ ensures [C17 Schema.readonly] FSk == old(FSk) && FSc == old(FSc)
+//@ ensures [C01 Schema.wf] wfDBbase(db) && imp(old(collsOK(db)), collsOK(db))
+//@ modifies Ghost.ACQ_H, MapDom[string,*Schema]@db.schemas, MapVal[string,*Schema]@db.schemas, MapCard[string,*Schema]@db.schemas, Async.routineStarted
+//@ allocates Async.Enable, Async.Threshold, Async.Timeout, Elem[*indexedField], Elem[string], MapCard[string,*fieldIndex], MapCard[string,uint64], MapCard[uint64,*indexedField], MapCard[uint64,string], MapDom[string,*fieldIndex], MapDom[string,uint64], MapDom[uint64,*indexedField], MapDom[uint64,string], MapVal[string,*fieldIndex], MapVal[string,uint64], MapVal[uint64,*indexedField], MapVal[uint64,string], Schema.AsyncWrites, Schema.Cache, Schema.Compress, Schema.Extension, Schema.Fields, Schema.ObjectIndex, Schema.coherent, Schema.db, Schema.object, Schema.transformers, fieldIndex.Cast, fieldIndex.Constraints.Index, fieldIndex.Constraints.Lower, fieldIndex.Constraints.Unique, fieldIndex.Constraints.Upper, fieldIndex.Index, fieldIndex.Name, fieldIndex.nameSplit, fieldIndex.objectIds, fieldIndex.pos, indexedField.ObjectId, indexedField.Value, objIndex.Fields, objIndex.ObjectIds, objIndex.i, objIndex.otype, objIndex.uuids, objIndex.ver
+
+// reflection: fills the caller's slice with the values of the field index (assumed contract)
+//@ func (*Schema).assignIndex
+//@ serves C13
+//@ trusted "reflection-bodied (reflect.MakeSlice / Convert): assumed contract"
+//@ may_panic "target must be a pointer to a slice of the field's type (documented misuse of Assign targets)"
+//@ requires s != nil
+//@ modifies nothing
+
+//@ func (*DB).AssignIndex
+//@ serves C08 C09 C13
+//@ requires [wf] wfDBbase(db) && of != nil
+//@ requires [C09 lock-free] lockFree()
+//@ may_panic "target must be a pointer to a slice of the field's type (documented misuse of Assign targets)"
+//@ ensures [C08 one-section] ACQ_H == old(ACQ_H) + 1 && lockFree()
+//@ ensures [C17 AssignIndex.readonly] FSk == old(FSk) && FSc == old(FSc)
+//@ modifies Ghost.ACQ_H, MapDom[string,*Schema]@db.schemas, MapVal[string,*Schema]@db.schemas, MapCard[string,*Schema]@db.schemas, Async.routineStarted
+//@ allocates Async.Enable, Async.Threshold, Async.Timeout, Elem[*indexedField], Elem[string], MapCard[string,*fieldIndex], MapCard[string,uint64], MapCard[uint64,*indexedField], MapCard[uint64,string], MapDom[string,*fieldIndex], MapDom[string,uint64], MapDom[uint64,*indexedField], MapDom[uint64,string], MapVal[string,*fieldIndex], MapVal[string,uint64], MapVal[uint64,*indexedField], MapVal[uint64,string], Schema.AsyncWrites, Schema.Cache, Schema.Compress, Schema.Extension, Schema.Fields, Schema.ObjectIndex, Schema.coherent, Schema.db, Schema.object, Schema.transformers, fieldIndex.Cast, fieldIndex.Constraints.Index, fieldIndex.Constraints.Lower, fieldIndex.Constraints.Unique, fieldIndex.Constraints.Upper, fieldIndex.Index, fieldIndex.Name, fieldIndex.nameSplit, fieldIndex.objectIds, fieldIndex.pos, indexedField.ObjectId, indexedField.Value, objIndex.Fields, objIndex.ObjectIds, objIndex.i, objIndex.otype, objIndex.uuids, objIndex.ver
